@@ -2,6 +2,7 @@ package sym
 
 import (
 	"fmt"
+	"os"
 	"go/types"
 	"sort"
 	"strings"
@@ -153,6 +154,20 @@ func (m *Machine) branch(c *Term, what string) bool {
 		ex.pos++
 		return d.alt == 0
 	}
+	if iv := m.ivalDecide(c); iv >= 0 {
+		// implied by interval reasoning over the byte domains
+		m.Stats.IntervalDecided++
+		d := decision{kind: dBranch, nalts: 2, what: what, forced: true}
+		if iv == 1 {
+			d.alt, d.lit = 0, c
+		} else {
+			d.alt, d.lit = 1, notc
+		}
+		ex.decs = append(ex.decs, d)
+		m.pushLit(ex, d.lit)
+		ex.pos++
+		return d.alt == 0
+	}
 	if ex.model != nil {
 		if Eval(c, ex.model) == 1 {
 			canT, modelT = true, ex.model
@@ -161,6 +176,17 @@ func (m *Machine) branch(c *Term, what string) bool {
 		}
 	}
 	vars := m.pathVars()
+	if m.Opts.Trace {
+		if m.solverWhat == nil {
+			m.solverWhat = map[string]int{}
+		}
+		sup := m.tt.supportOf(c)
+		m.solverWhat[fmt.Sprintf("%s vars=%d many=%v", what, len(sup.vars), sup.many)]++
+		if os.Getenv("GOSYM_TERMS") != "" && len(sup.vars) > 1 && m.solverWhat["printed"] < 5 {
+			m.solverWhat["printed"]++
+			fmt.Println("SOLVER COND:", c.String())
+		}
+	}
 	if !canT {
 		r, mod := m.solver.CheckModel(vars, c)
 		switch r {
@@ -674,6 +700,12 @@ func pureInstr(instr ssa.Instruction) bool {
 			return scalarType(instr.X.Type())
 		}
 		return false
+	case *ssa.Lookup:
+		// string indexing: pure when the index is concrete and in range
+		// (checked when the region is evaluated)
+		return isString(instr.X.Type()) && !instr.CommaOk
+	case *ssa.Index:
+		return isString(instr.X.Type())
 	case *ssa.Convert:
 		return scalarIntType(instr.X.Type()) && scalarIntType(instr.Type())
 	case *ssa.ChangeType:
@@ -869,6 +901,20 @@ func (m *Machine) tryRegion(fr *frame, instr *ssa.If, c *Term) bool {
 				eg[edge{blk, blk.Succs[1]}] = tt.Or(eg0(eg[edge{blk, blk.Succs[1]}], tt), tt.And(g, tt.Not(cc)))
 			case *ssa.Jump:
 				eg[edge{blk, blk.Succs[0]}] = tt.Or(eg0(eg[edge{blk, blk.Succs[0]}], tt), g)
+			case *ssa.Lookup:
+				x, ok1 := fr.get(ins.X).(Str)
+				idx, ok2 := fr.get(ins.Index).(*Term)
+				if !ok1 || !ok2 || !idx.IsConst() || idx.SConst() < 0 || idx.SConst() >= int64(x.Len()) {
+					return false
+				}
+				fr.env[ins] = m.strAt(x, int(idx.SConst()))
+			case *ssa.Index:
+				x, ok1 := fr.get(ins.X).(Str)
+				idx, ok2 := fr.get(ins.Index).(*Term)
+				if !ok1 || !ok2 || !idx.IsConst() || idx.SConst() < 0 || idx.SConst() >= int64(x.Len()) {
+					return false
+				}
+				fr.env[ins] = m.strAt(x, int(idx.SConst()))
 			default:
 				m.steps++
 				m.exec(fr, ins)
@@ -973,11 +1019,12 @@ func (m *Machine) hasSymbolic(v value, depth int) bool {
 // callMaybeMerge calls fn, merging its paths into one result when fn is a
 // merge candidate.
 func (m *Machine) callMaybeMerge(caller *frame, fn *ssa.Function, args, env []value) value {
-	if !m.Opts.Merge || m.initing > 0 || m.ex == nil || m.sched != nil || !m.scalarResults(fn) {
+	if (!m.Opts.Merge && m.Opts.NoMergeSingle) || m.initing > 0 || m.ex == nil || m.sched != nil || !m.scalarResults(fn) {
 		return m.callFunction(caller, fn, args, env)
 	}
-	if fn.Blocks == nil {
-		m.P.ensureBuilt(pkgOf(fn))
+	if pkg := pkgOf(fn); pkg != nil && !m.pkgSeen[pkg] {
+		m.P.ensureBuilt(pkg)
+		m.pkgSeen[pkg] = true
 	}
 	if fn.Blocks == nil || m.lookupIntrinsic(fn) != nil || isVerifrt(fn) {
 		return m.callFunction(caller, fn, args, env)
@@ -998,6 +1045,9 @@ func (m *Machine) callMaybeMerge(caller *frame, fn *ssa.Function, args, env []va
 		}
 	}
 	if !sym {
+		return m.callFunction(caller, fn, args, env)
+	}
+	if !m.Opts.Merge && !m.singleVarCall(args, env) {
 		return m.callFunction(caller, fn, args, env)
 	}
 	ex := m.ex
@@ -1205,6 +1255,11 @@ func sortedKeys(mm map[string]int) []string {
 // assertLit asserts a path literal in the solver and records it in the
 // byte-domain front solver.
 func (m *Machine) assertLit(lit *Term) {
+	if m.tt.single8(lit) == nil && m.ivalDecide(lit) == 1 {
+		// implied by the byte domains (hence by the path condition): adding
+		// it would change nothing
+		return
+	}
 	m.solver.Assert(lit)
 	m.domNote(lit, m.solver.Depth())
 }
@@ -1212,4 +1267,61 @@ func (m *Machine) assertLit(lit *Term) {
 func (m *Machine) solverPopTo(depth int) {
 	m.solver.PopTo(depth)
 	m.domPopTo(depth)
+}
+
+// singleVarCall reports whether all symbolic scalar arguments together depend
+// on exactly one 8-bit variable and no argument is a reference to mutable
+// symbolic state (then the merged result is a single-variable term, which the
+// byte-domain front solver decides exactly).
+func (m *Machine) singleVarCall(args, env []value) bool {
+	var v *Term
+	check := func(a value) bool {
+		switch a := a.(type) {
+		case *Term:
+			if a.IsConst() {
+				return true
+			}
+			s := m.tt.supportOf(a)
+			if s.many || len(s.vars) != 1 || s.vars[0].sort != 8 {
+				return false
+			}
+			if v != nil && v != s.vars[0] {
+				return false
+			}
+			v = s.vars[0]
+			return true
+		case Str:
+			if a.b == nil {
+				return true
+			}
+			for _, t := range a.b {
+				if t.IsConst() {
+					continue
+				}
+				s := m.tt.supportOf(t)
+				if s.many || len(s.vars) != 1 || s.vars[0].sort != 8 {
+					return false
+				}
+				if v != nil && v != s.vars[0] {
+					return false
+				}
+				v = s.vars[0]
+			}
+			return true
+		case float64, nil:
+			return true
+		}
+		return false
+	}
+	for _, a := range args {
+		if !check(a) {
+			return false
+		}
+	}
+	for _, a := range env {
+		if !check(a) {
+			return false
+		}
+	}
+	return v != nil
 }
